@@ -55,6 +55,22 @@ def membership(item):
                 break
         if bad:
             break
+    # the same entry choices cycled over universes of many assets (size-dependent code paths)
+    for size in (10, 24, 25, 64):
+        names = ['EQ:X%03d' % i for i in range(size)]
+        big = {n_: entries[i % 3] for i, n_ in enumerate(names)}
+        uni = DynamicUniverse(dict(big))
+        for q in (QUERIES[1], QUERIES[2], QUERIES[4]):
+            got = list(uni.get_assets(q))
+            want = [n_ for n_ in names if big[n_] is not None and big[n_] <= q]
+            if sorted(got) != sorted(want) or len(set(got)) != len(got):
+                viols.append({'clause': 'C19.membership', 'detail': {'dt': str(q), 'universe_size': size,
+                                                                     'unexpected': sorted(set(got) - set(want))[:5],
+                                                                     'missing': sorted(set(want) - set(got))[:5],
+                                                                     'entries': case['entries']}, 'case': case})
+                break
+        if viols:
+            break
     present = [a for a, e in emap.items() if e is not None]
     st = StaticUniverse(list(present))
     for q in QUERIES:
